@@ -6,14 +6,15 @@
 
     bool resolvePath(char* directory, char* path, U32 pathLength, char result[PATH_MAX]) {
         MUST (pathLength > 0)
-        MUST (memchr(path, '\0', pathLength) == NULL)       // present iff Gen.WasiPath.rejectsNul
         if (path[0] == '/') {
             MUST (pathLength < PATH_MAX)
+            MUST (memchr(path, '\0', pathLength) == NULL)   // (*)
             memcpy(result, path, pathLength);
             result[pathLength] = '\0';
         } else {
             size_t totalLength = strlen(directory);
             MUST (totalLength + pathLength + 1 < PATH_MAX)
+            MUST (memchr(path, '\0', pathLength) == NULL)   // (*)
             memcpy(result, directory, totalLength);
             if (directory[totalLength - 1] != '/') { result[totalLength++] = '/'; }
             memcpy(result + totalLength, path, pathLength);
@@ -22,6 +23,10 @@
         }
         return true;
     }
+
+  (*) The NUL guard follows the regenerated shape: absent (`Gen.WasiPath.rejectsNul = false`), once
+  directly after `MUST (pathLength > 0)` (`nulCheckAfterLength = false`), or — current source — in
+  each branch after the branch's length guard (`nulCheckAfterLength = true`).
 
   The three guards, the compared / inserted characters are taken from `Gen.WasiPath`
   (regenerated from the source on every run).  `PATH_MAX` is a parameter `pm` (4096 from
@@ -78,6 +83,10 @@ def noNulIn : Bytes → Nat → Out Bool
 /-- the C string a `char*` to the start of `buf` denotes for a callee that stops at the first NUL -/
 def cstr (buf : Bytes) : Bytes := buf.takeWhile (fun b => !(b == 0))
 
+/-- `MUST (memchr(path, '\0', pathLength) == NULL)` if present at this place of the source -/
+def nulGuard (present : Bool) (avail : Bytes) (pathLength : Nat) : Out Bool :=
+  if present then noNulIn avail pathLength else .val true
+
 /-- `resolvePath(directory, path, pathLength, result)`.
     `directory`: the host object holding the descriptor's path (NUL-terminated string at its start);
     `avail`: guest memory from `memory->data + pathPointer` to the END of the memory object;
@@ -86,17 +95,21 @@ def cstr (buf : Bytes) : Bytes := buf.takeWhile (fun b => !(b == 0))
 def resolvePath (pm : Nat) (directory avail : Bytes) (pathLength : Nat) (result : Bytes) :
     Out (Option Bytes) :=
   if ¬ Gen.WasiPath.guardNonEmpty pathLength 0 pm then .val none else do
-  let nulFree ← if Gen.WasiPath.rejectsNul then noNulIn avail pathLength else .val true
+  let nulFree ← nulGuard (Gen.WasiPath.rejectsNul && !Gen.WasiPath.nulCheckAfterLength) avail pathLength
   if ¬ nulFree then .val none else do
   let c0 ← readAt avail 0
   if c0 = Gen.WasiPath.absChar then
     if ¬ Gen.WasiPath.guardAbs pathLength 0 pm then .val none else do
+    let nulFree ← nulGuard (Gen.WasiPath.rejectsNul && Gen.WasiPath.nulCheckAfterLength) avail pathLength
+    if ¬ nulFree then .val none else do
     let result ← memcpyTo result 0 avail pathLength
     let result ← writeAt result pathLength Gen.WasiPath.terminator
     .val (some result)
   else do
     let totalLength ← cstrlen directory
     if ¬ Gen.WasiPath.guardRel pathLength totalLength pm then .val none else do
+    let nulFree ← nulGuard (Gen.WasiPath.rejectsNul && Gen.WasiPath.nulCheckAfterLength) avail pathLength
+    if ¬ nulFree then .val none else do
     let result ← memcpyTo result 0 directory totalLength
     let last ← if totalLength = 0 then (.ub .outOfBounds : Out UInt8) else readAt directory (totalLength - 1)
     let (result, totalLength) ←
